@@ -131,6 +131,9 @@ def body(chk):
     chk.sample({"images": cases[7]["names"], "map_projection": cases[7]["nmap"], "metadata_groups": cases[7]["meta"], "problems": results[7]["bad"][:2]})
     chk.assumptions += ["scan suffixes B<n> / F<n> map to _scan<n>; products never mix both methods for one polarisation and number",
                         "level 1.1 products carry no map projection record, level 1.5 / 3.1 do"]
+    from harness import sessioncheck
+
+    sessioncheck.standard(chk)
     chk.finish(rule="products = the family TLC enumerated (sequences of 1..3 distinct (polarisation, scan) x map projection 0/1; a deterministic third in "
                     "quick) + random products of 4..8 images in unsorted listing order; each opened twice; distinct = (group name sequence, map projection)",
                exhaustive=(chk.tier == "thorough"), extra={"family": len(fam)})
